@@ -4,11 +4,11 @@ from pyvc.contracts import contract, spec, ghost
 R = "fparser.common.readfortran:"
 
 
-# the file the search loop settles on: the first directory of dirs (from position i) in which the file exists,
+# the file the search loop settles on: the first directory of dirs (from position i) in which a file of that name exists,
 # else the candidate in the last directory (the bare file name when dirs is empty)
 spec("include_candidate", "dirs:list[str], f:str, i:int", "str",
      "(f if len(dirs) == 0 else os.path.join(dirs[len(dirs) - 1], f)) if i >= len(dirs) or i < 0 else "
-     "(os.path.join(dirs[i], f) if os.path.exists(os.path.join(dirs[i], f)) else include_candidate(dirs, f, i + 1))",
+     "(os.path.join(dirs[i], f) if os.path.isfile(os.path.join(dirs[i], f)) else include_candidate(dirs, f, i + 1))",
      rec=True)
 
 OPTIONS = '"include_dirs", "_ignore_comments", "_include_omp_conditional_lines", "process_directives", "id"'
@@ -40,7 +40,7 @@ contract(R + "FortranReaderBase.next",
     locals=dict(include_dirs="list[str]"), alloc_facts=True,
     modifies=["*.fifo_item", "*.linecount", "*.filo_line", "*.source_lines", "*.isclosed", "*.reader", "*.include_dirs", "*._ignore_comments",
               "*._include_omp_conditional_lines", "*.process_directives", "*.id"],
-    calls={"self._next": "proto:_next", "os.path.join": "pure:str", "os.path.exists": "pure:bool", "os.path.isfile": "pure:bool",
+    calls={"self._next": "proto:_next", "os.path.join": "pure:str", "os.path.isfile": "pure:bool",
            "self.format_message": "noraise:str", "str": "pure:str"},
     ensures_local={
         # the nested reader is opened on the first match of the include path, with the parent's options
